@@ -1038,6 +1038,18 @@ def _is_exception(node: ast.AST) -> bool:
     return False
 
 
+def _is_blocking_body(body: Sequence[ast.AST], parent_type: ast.AST = None) -> bool:
+    for child in body:
+        if is_blocking(child, parent_type):
+            return True
+        if parent_type is not None and is_blocking(child):
+            # A break or continue. It leaves the body, but not the loop (parent_type) around it,
+            # and whatever comes after it in the body is never reached.
+            return False
+
+    return False
+
+
 def is_blocking(node: ast.AST, parent_type: ast.AST = None) -> bool:
     """Check if a node is impossible to get past.
 
@@ -1063,11 +1075,9 @@ def is_blocking(node: ast.AST, parent_type: ast.AST = None) -> bool:
             branch = node.body if literal_value(node.test) else node.orelse
         except ValueError:
             branches = [node.body, node.orelse]
-            return all(
-                any(is_blocking(child, parent_type) for child in branch) for branch in branches
-            )
+            return all(_is_blocking_body(branch, parent_type) for branch in branches)
         else:
-            return any(is_blocking(child, parent_type) for child in branch)
+            return _is_blocking_body(branch, parent_type)
 
     if isinstance(node, ast.While):
         try:
@@ -1116,7 +1126,7 @@ def is_blocking(node: ast.AST, parent_type: ast.AST = None) -> bool:
             return False
 
     if isinstance(node, ast.With):
-        return any(is_blocking(child, parent_type) for child in node.body)
+        return _is_blocking_body(node.body, parent_type)
 
     return False
 
